@@ -11,7 +11,7 @@ from sim.core import Chooser, EventLog, Violation, stable_hash
 from sim.faults import FAULT_KINDS, FaultyLark, ParseSeam, text_key
 
 # valid in unusual ways: empty / blank parts (fbody: stmt* accepts them), braces inside string literals
-EDGE_OK = ["", "   ", "{ fatal(\"{\"); }", "{ fatal(\"} {\"); }"]
+EDGE_OK = ["", "   ", "{ fatal(\"{\"); }", "{ fatal(\"} {\"); }", "{ fatal(\"a  b\"); }", "{ fatal(\"a\tb   c\"); }"]
 BROKEN = [
     # double faults: an early lexical error *and* an unbalanced brace
     "{ RdV = RsV $ 1; ",
@@ -52,6 +52,9 @@ class EngineP(EngineBase):
         _tqdm.tqdm.monitor_interval = 0          # display-only helper thread; never fork with threads
         import rzilcompiler.Parser as P
         self.P = P
+        # what a spawn/forkserver worker would see: the modules as they are right after import
+        simpool.SimPool.import_snapshot = {n: dict(vars(m)) for n, m in list(sys.modules.items())
+                                           if n.startswith("rzilcompiler") and m is not None}
         self.ref: dict[str, tuple] = {}
         self._devnull = open(os.devnull, "w")
 
@@ -76,8 +79,35 @@ class EngineP(EngineBase):
         self.cached_ok_texts = sorted({x for _, p in self.corpus_cached for x in p if self.tc.data[x][0] == "ok"})
 
     # ------------------------------------------------------------------ reference (sequential, harness-owned)
+    VOL_RE = None
+
+    def synth(self, text):
+        """`{ RdV = 0x<hex>; }`: the tree of the template with the literal replaced (2000 real parses would cost minutes)."""
+        import copy
+        import re as _re
+        from lark import Token, Tree
+        m = _re.fullmatch(r"\{ RdV = (0x[0-9a-f]+); \}", text)
+        if not m:
+            return None
+        if not hasattr(self, "_template"):
+            r = corpus._parse_one((self.grammar, "{ RdV = 0x5000; }"))[1]
+            self._template = r[1]
+
+        def rebuild(t):
+            if isinstance(t, Tree):
+                return Tree(t.data, [rebuild(c) for c in t.children])
+            if isinstance(t, Token) and t.type == "HEX_NUMBER":
+                return Token("HEX_NUMBER", m.group(1))
+            return t
+        return rebuild(self._template)
+
     def ref_parse(self, text):
         hit = self.ref.get(text)
+        if hit is None and text.startswith("{ RdV = 0x") and len(text) < 30 and text not in self.tc.data:
+            t = self.synth(text)
+            if t is not None:
+                hit = ("ok", t, trees.canon(t))
+                self.ref[text] = hit
         if hit is None:
             if text in self.tc.data:
                 r = self.tc.data[text]
@@ -107,6 +137,8 @@ class EngineP(EngineBase):
 
     # ------------------------------------------------------------------ workload
     def generate(self, ch: Chooser, index):
+        if ch.chance(1, 40, "volume-run"):
+            return self.volume_workload(ch, index)
         mode = ch.weighted([("real", 2), ("objmemo", 3), ("memoparse", 5)], "mode")
         if self.tier == "thorough":
             mode = ch.weighted([("real", 4), ("objmemo", 3), ("memoparse", 3)], "mode2")
@@ -197,11 +229,35 @@ class EngineP(EngineBase):
                     cand = ch.choice(first_names, "reused")
                     if all(o["name"] != cand for o in tasks if o is not t and o["call"] == t["call"]):
                         t["name"] = cand
-        return {"mode": mode, "tasks": tasks, "plan": plan}
+        # a task whose single part is the concatenation of another task's parts (the same characters, split differently)
+        for t in list(tasks):
+            if len(t["parts"]) >= 2 and ch.chance(1, 4, "concat-twin") and all(text_key(p) not in plan for p in t["parts"]):
+                cat = "".join(t["parts"])
+                self.ref_parse(cat)          # (memoised here, so the forked run inherits the reference)
+                nm = t["name"] + "_cat"
+                if nm not in {x["name"] for x in tasks if x.get("call", 0) == t.get("call", 0)}:
+                    tasks.append({"name": nm, "parts": [cat], "call": t.get("call", 0)})
+        wl = {"mode": mode, "tasks": tasks, "plan": plan}
+        wl["start"] = "spawn" if ch.chance(3, 10, "start-method") else "fork"
+        if ch.chance(1, 20, "pool-create-fails"):
+            wl["pool_fail"] = ch.choice(["OSError", "AssertionError"], "pool-fail-kind")
+        return wl
+
+    def volume_workload(self, ch: Chooser, index):
+        """A long-lived worker: one simulated CPU, more than 2048 distinct behaviours, then early ones again under new
+        names (anything a worker keeps between tasks - memo tables, counters, ring buffers - crosses its thresholds)."""
+        n = 2060 + ch.randint(0, 40, "volume-n")
+        base = 0x100000 + (index % 997) * 4096
+        tasks = [{"name": f"v{k}", "parts": ["{ RdV = 0x%x; }" % (base + k)], "call": 0} for k in range(n)]
+        for j in range(24):
+            k = ch.draw(64, "revisit")
+            tasks.append({"name": f"again{j}", "parts": ["{ RdV = 0x%x; }" % (base + k)], "call": 0})
+        return {"mode": "memoparse", "tasks": tasks, "plan": {}, "start": "fork", "cpus": 1, "volume": True}
 
     def describe(self, wl):
         return {"mode": wl["mode"], "plan": wl["plan"],
-                "tasks": [{"name": t["name"], "call": t.get("call", 0), "parts": [p[:80] for p in t["parts"]]} for t in wl["tasks"]]}
+                "start": wl.get("start"), "pool_fail": wl.get("pool_fail"), "cpus": wl.get("cpus"), "n_tasks": len(wl["tasks"]),
+                "tasks": [{"name": t["name"], "call": t.get("call", 0), "parts": [p[:80] for p in t["parts"]]} for t in wl["tasks"][:40]]}
 
     # ------------------------------------------------------------------ execution
     def _install(self):
@@ -210,6 +266,7 @@ class EngineP(EngineBase):
         import lark
         P = self.P
         saved = []
+        simpool.SimPool.snapshot_keep = {}
         real_pools = {id(multiprocessing.Pool), id(multiprocessing.pool.Pool)}
         for k, v in list(vars(P).items()):
             if id(v) in real_pools or getattr(v, "__func__", None) is getattr(multiprocessing.Pool, "__func__", object()):
@@ -241,6 +298,8 @@ class EngineP(EngineBase):
             elif v is simpool._REAL_WAIT:
                 saved.append((P, k, v))
                 setattr(P, k, simpool.sim_wait)
+        for mod, k, _ in saved:
+            simpool.SimPool.snapshot_keep.setdefault(getattr(mod, "__name__", ""), set()).add(k)
         return saved
 
     @staticmethod
@@ -319,7 +378,17 @@ class EngineP(EngineBase):
         # (pool size, chunk sizes) must not change the result
         import multiprocessing
         cpus = 1 + ch.draw(16, "cpu_count")
+        if workload.get("cpus"):
+            cpus = int(workload["cpus"])
         simpool.SimPool.cpus = cpus
+        simpool.SimPool.start_method = workload.get("start", "fork")
+        out.count("start_" + simpool.SimPool.start_method)
+        injected_create = None
+        if workload.get("pool_fail"):
+            import errno
+            injected_create = (OSError(errno.EAGAIN, "injected: Resource temporarily unavailable") if workload["pool_fail"] == "OSError"
+                               else AssertionError("injected: daemonic processes are not allowed to have children"))
+            simpool.SimPool.fail_create = injected_create
         os.cpu_count = lambda: cpus
         multiprocessing.cpu_count = lambda: cpus
         if hasattr(os, "sched_getaffinity"):
@@ -353,6 +422,12 @@ class EngineP(EngineBase):
                 detail["call"] = ci
                 V.append(Violation("C18", "seq-ref", cls, sigkey, detail))
 
+            if raised is not None and raised is injected_create:
+                # the pool could not be created: the statement promises nothing then; propagating the error is fine,
+                # answering with wrong entries is not (judged below if the call returns)
+                out.count("pool_create_failure_propagated")
+                log.add("pool-create-failure-propagated", ci)
+                continue
             if raised is not None:
                 if isinstance(raised, (simpool.SimHang,)):
                     viol("hang", "", message=str(raised), events=log.events[-12:])
@@ -418,6 +493,9 @@ class EngineP(EngineBase):
                         out.count("natural_parse_error_" + r[1])
                         break
 
+        simpool.SimPool.fail_create = None
+        out.count("pool_create_failed", stats.get("pool_create_failed", 0))
+        out.count("volume_runs", 1 if workload.get("volume") else 0)
         # ---------------- probes / statistics
         sums = stats.get("pool_summaries", [])
         ooo = any(s["out_of_order"] for s in sums)
@@ -455,7 +533,7 @@ class EngineP(EngineBase):
 
     def with_items(self, wl, items):
         keep = {text_key(p) for t in items for p in t["parts"]}
-        return {"mode": wl["mode"], "tasks": list(items), "plan": {k: v for k, v in wl["plan"].items() if k in keep}}
+        return dict(wl, tasks=list(items), plan={k: v for k, v in wl["plan"].items() if k in keep})
 
     def simplify(self, wl):
         # fewer parts per task, simpler texts, no fault, cheaper mode
@@ -473,9 +551,13 @@ class EngineP(EngineBase):
         for k in list(wl["plan"]):
             plan = dict(wl["plan"])
             del plan[k]
-            yield {"mode": wl["mode"], "tasks": wl["tasks"], "plan": plan}
+            yield dict(wl, plan=plan)
         if wl["mode"] != "memoparse":
             yield dict(wl, mode="memoparse")
+        if wl.get("start") == "spawn":
+            yield dict(wl, start="fork")
+        if wl.get("pool_fail"):
+            yield {k: v for k, v in wl.items() if k != "pool_fail"}
 
     def finding_key(self, wl, v):
         return v.signature()
